@@ -82,6 +82,24 @@ def pulledFrom (limit : Nat) : St → List Item → Nat × Bool
 
 def pulled (limit : Nat) (items : List Item) : Nat × Bool := pulledFrom limit (.run []) items
 
+/-! ### schedules -/
+
+/-- what one `poll_next` call returns to the loop; `ready!` turns `Pending` into an early return
+with the loop state untouched, the next `poll` re-enters the loop -/
+inductive PollEv where
+  | ready (it : Item)
+  | pending
+deriving Repr, DecidableEq
+
+def stepPoll (limit : Nat) (s : St) : PollEv → St
+  | .ready it => step limit s it
+  | .pending => s
+
+def readyItems : List PollEv → List Item
+  | [] => []
+  | .ready it :: rest => it :: readyItems rest
+  | .pending :: rest => readyItems rest
+
 /-! ### stream views -/
 
 /-- bytes delivered before the first stream error -/
@@ -295,6 +313,10 @@ def tryConsume (l : Limits) (bytes : Nat) (inMemory : Bool) : Limits × Bool :=
         match checkedSub f bytes with
         | none => (l2, false)
         | some f' => ({ l2 with field := some f' }, true)
+
+/-- an arbitrary caller of the public `try_consume_limits` (it may go on after an `Err`) -/
+def runOps (l : Limits) (ops : List (Nat × Bool)) : Limits :=
+  ops.foldl (fun l op => (tryConsume l op.1 op.2).1) l
 
 /-- the `while let Some(chunk) = field.try_next().await?` loops of `Bytes::read_field`
 (`in_memory = true`), `TempFile::read_field` and `discard_field` (`false`): chunk lengths in,
